@@ -1,12 +1,16 @@
 """Translator 3: small pure Python functions and the header constructors -> lean/SqliteDissect/Generated/PyFun.lean,
-lean/SqliteDissect/Generated/PyHeader.lean
+lean/SqliteDissect/Generated/PyHeader.lean, lean/SqliteDissect/Generated/PyPage.lean
 
 The functions at the bottom of the parsers (varint codec, serial-type sizes and record values, the local-payload
 arithmetic of the three payload-bearing cell constructors, the overflow closed form, the per-column regex table, the
 body-size scan of the carver) and the constructors of the four header classes are re-translated from the *current*
 source on every run.  `Properties/GenFun.lean` / `Properties/GenHeader.lean` prove each generated function equal to
 the hand-written model function the property theorems are about, so a semantic change of the source breaks a proof
-obligation on the next run.
+obligation on the next run.  `Generated/PyPage.lean` (`Properties/GenPage.lean`) holds the constructors of the b-tree
+page header classes (`BTreePageHeader(page, header_length)` and its subclasses `LeafPageHeader`, `InteriorPageHeader`),
+of the WAL-index header classes (`WriteAheadLogIndexSubHeader(index, bytes)`,
+`WriteAheadLogIndexCheckpointInfo(bytes, endianness)`, `WriteAheadLogIndexHeader(bytes)`) and the body of
+`OverflowPage.__init__` after `super().__init__` (PAGE_CLASSES).
 
 Subset (whitelist).  Statements: assignment to a name or to a tuple of names, augmented assignment, if/elif/else,
 `while` (fuelled), `for v in range(..)`, break, continue, return, raise of a project exception class / a builtin
@@ -16,8 +20,12 @@ logging calls, `warnings.warn`, docstrings, `logger = getLogger(..)` and assignm
 integer-list constants, + - * // % / (float as exact fraction, only under int()/return), << >> & |, unary -,
 comparisons (chains; == / != also of byte strings), `in` / `not in` a literal list or a constant list, and/or/not,
 conditional expression, tuples of those in `return`, `ord(b[lo:hi])`, `b[lo:hi]` of a byte buffer, `len(..)`,
-`int(..)`, byte string constants and `+` on them, `bytearray()`, `bytearray(b"..")`, `b[:-1]`, `b[-1]`, `pack("B", e)`,
-`unpack(">b|B|h|H|i|I|q|Q|d", data)[0]`, `unhexlify(f"..{i}")`, `get_md5_hash(data)` (identity),
+`b[lo:]`, `b[:hi]`, `int(..)`, byte string constants and `+` on them, `bytearray()`, `bytearray(b"..")`, `b[:-1]`, `b[-1]`,
+`pack("B", e)`, `unpack(">b|B|h|H|i|I|q|Q|d", data)[0]`, `unpack("<b|B|h|H|i|I|q|Q", data)[0]`, True / False,
+`X.MEMBER` for an `X = Enum([..])` table of constants.py (the string that names the member, provided the `Enum` class
+still reads as `_enums` expects), `x = []` / `x.append(e)` (a list of integers or of translated objects) and `x[k]` for a
+literal k >= 0, the constructor of a class translated earlier (a byte string argument becomes the buffer it is),
+`obj.attr` of such an object, `unhexlify(f"..{i}")`, `get_md5_hash(data)` (identity),
 `compile(C).match(hexlify(data).decode())` for a constant C of the form `^0{n}$`, and calls of functions translated
 earlier (KNOWN_CALLS).  Anything else raises `Unsupported` with the source line: the generated file then contains a
 deliberately failing declaration for that function and the proof stage is red ("generated model could not be
@@ -49,7 +57,16 @@ A header constructor `<Class>.__init__(self, data)` is translated whole: `self.a
 assigns None to attributes all of which this constructor assigns, and the result is a Lean structure `<Class>` with
 one field per attribute in the order of first assignment (every attribute must have a value of one type at the end).
 Parameter names are taken from the source (the configured ones document the positions), so a renamed parameter or
-local changes bound names only."""
+local changes bound names only.  PAGE_CLASSES extends this: several parameters with configured types; a parameter or
+local with the name of an attribute (`self.index = index`) is renamed `<name>_arg` / `<name>_local`; an attribute that
+is None at the end of one branch of a pure `if` and a value at the end of the other is an `Option`; a subclass of a
+class translated earlier in the same module calls `super().__init__(args)` once, as a top-level statement: that is a
+call of the generated base constructor whose attributes become variables, and the structure of the subclass repeats
+the fields of the base class before its own.  With `drop_super` (OverflowPage) the base constructor is NOT
+translated: `super().__init__(..)` is dropped, the attributes it leaves behind that the body reads are parameters
+(`inputs`), the configured call of the version interface is a parameter of type `Py Buf` (its result or the exception
+it raises) bound at the place of the call, and the parameters configured with type None may only be handed to
+`super().__init__`.  An attribute that is read but assigned nowhere is an error as soon as it is evaluated."""
 import ast
 import json
 import os
@@ -63,12 +80,16 @@ from . import constants as tr_constants
 REPO = os.environ.get("VERIF_REPO", "/repo")
 OUT = os.path.join(LEAN, "SqliteDissect", "Generated", "PyFun.lean")
 OUT_HEADER = os.path.join(LEAN, "SqliteDissect", "Generated", "PyHeader.lean")
+OUT_PAGE = os.path.join(LEAN, "SqliteDissect", "Generated", "PyPage.lean")
 
 TRUSTED = ("translator harness/translate/pyfun.py + lean/SqliteDissect/PyPrelude.lean (Python source of the small pure "
-           "functions and of the header constructors -> Generated/PyFun.lean, Generated/PyHeader.lean, proved equal to the "
-           "hand-written model functions in Properties/GenFun.lean, Properties/GenHeader.lean); trusted: the prelude's "
-           "reading of Python int / slice / struct.unpack / float operations (floats as exact fractions, doubles as bit "
-           "patterns, md5 as the identity), the dropping of logging / warnings / message formatting, and the translator "
+           "functions, of the header constructors, of the b-tree page header / WAL-index header constructors and of the "
+           "body of OverflowPage.__init__ -> Generated/PyFun.lean, Generated/PyHeader.lean, Generated/PyPage.lean, proved "
+           "equal to the hand-written model functions in Properties/GenFun.lean, Properties/GenHeader.lean, "
+           "Properties/GenPage.lean); trusted: the prelude's reading of Python int / slice / struct.unpack / list / float "
+           "operations (floats as exact fractions, doubles as bit patterns, md5 as the identity, a member of an Enum table "
+           "of constants.py as the string that names it), the dropping of logging / warnings / message formatting, for "
+           "OverflowPage that Page.__init__ leaves the page size in self.size (it is not translated), and the translator "
            "itself, all exercised against the interpreter by `python -m harness.translate.pyfun --selftest`")
 
 MAX_LINES = 400  # per function: inlining the continuation into branches must not explode
@@ -123,6 +144,31 @@ CLASSES = [
     dict(file="sqlite_dissect/file/journal/header.py", cls="RollbackJournalHeader",
          param="rollback_journal_header_byte_array"),
 ]
+# constructors written to Generated/PyPage.lean, in dependency order (a class is translated after its base class and
+# after the classes whose constructors it calls).  `params` documents the positions and gives the types; the names are
+# read from the source.
+DBHEADER = "sqlite_dissect/file/database/header.py"
+WALINDEX = "sqlite_dissect/file/wal_index/header.py"
+PAGE_CLASSES = [
+    dict(file=DBHEADER, cls="BTreePageHeader", params=[("page", "buf"), ("header_length", "int")]),
+    dict(file=DBHEADER, cls="LeafPageHeader", params=[("page", "buf")]),
+    dict(file=DBHEADER, cls="InteriorPageHeader", params=[("page", "buf")]),
+    dict(file=WALINDEX, cls="WriteAheadLogIndexSubHeader",
+         params=[("index", "int"), ("wal_index_sub_header_byte_array", "buf")]),
+    dict(file=WALINDEX, cls="WriteAheadLogIndexCheckpointInfo",
+         params=[("wal_index_checkpoint_info_byte_array", "buf"), ("endianness", "str")]),
+    dict(file=WALINDEX, cls="WriteAheadLogIndexHeader", params=[("wal_index_header_byte_array", "buf")]),
+    # a constructor that talks to the version interface: `super().__init__(..)` (Page.__init__, not translated) is
+    # dropped, the attributes it leaves behind that are read here are parameters (`inputs`), the one call of the
+    # version interface is a parameter holding its result or its exception (`externals`), the __init__ parameters
+    # typed None may only be handed to `super().__init__` (positions, not names)
+    dict(file=PAGE, cls="OverflowPage",
+         params=[("version_interface", None), ("number", None), ("parent_cell_page_number", "int"),
+                 ("parent_overflow_page_number", "int"), ("index", "int"), ("payload_remaining", "int")],
+         inputs=[("size", "int")],
+         externals=[("self._version_interface.get_page_data(self.number)", "page_data", ("py", "buf"))],
+         drop_super=True),
+]
 CELLS = [
     dict(file=PAGE, cls="TableLeafCell", lean="tableLeafLocal"),
     dict(file=PAGE, cls="IndexLeafCell", lean="indexLeafLocal"),
@@ -138,6 +184,10 @@ LEAN_TYPE = {"int": "Int", "bool": "Bool", "buf": "Buf", "bytes": "List Nat", "r
 STATIC_TYPES = ("logger",)          # values that exist only for dropped statements (plus ("zeros_regex", n))
 UNPACK_FORMATS = {">b": (True, 1), ">B": (False, 1), ">h": (True, 2), ">H": (False, 2), ">i": (True, 4),
                   ">I": (False, 4), ">q": (True, 8), ">Q": (False, 8)}
+UNPACK_FORMATS_LE = {"<" + k[1:]: v for k, v in UNPACK_FORMATS.items()}
+RECORD_FIELD_TYPES = ("int", "bytes", "bool", "str")
+# constructors translated earlier in the same output: (module, class) -> dict(lean=, params=[types], fields=[(n, t)])
+KNOWN_CLASSES = {}
 # functions translated earlier in the same output that later ones may call: (module, name) -> (lean, params, result)
 KNOWN_CALLS = {
     ("sqlite_dissect.utilities", "decode_varint"): ("decode_varint", ["buf", "int"], ("tuple", ["int", "int"])),
@@ -160,9 +210,39 @@ BUILTIN_ERRORS = {"ValueError": "valueError", "TypeError": "typeError", "IndexEr
 def lean_ty(t):
     if isinstance(t, tuple) and t[0] == "record":
         return t[1]
+    if isinstance(t, tuple) and t[0] == "opt":
+        return "Option " + atom(lean_ty(t[1]))
+    if isinstance(t, tuple) and t[0] == "list":
+        return "List " + atom(lean_ty(t[1]))
+    if isinstance(t, tuple) and t[0] == "elt":     # element type of a list, known at its first `append`
+        return f"@@ELT:{t[1]}@@"
+    if isinstance(t, tuple) and t[0] == "py":      # the outcome of a call that is a parameter: a value or an exception
+        return "Py " + atom(lean_ty(t[1]))
     if isinstance(t, tuple):
         return "(" + " × ".join(lean_ty(x) for x in t[1]) + ")"
     return LEAN_TYPE[t]
+
+
+def unify_opt(t1, t2):
+    """the type of a variable that is None on one path and a value on the other (None if they do not unify)"""
+    if t1 == t2:
+        return t1
+    for a, b in ((t1, t2), (t2, t1)):
+        if a == "none" and b in ("int", "bytes"):
+            return ("opt", b)
+        if a == "none" and isinstance(b, tuple) and b[0] == "opt":
+            return b
+        if isinstance(a, tuple) and a[0] == "opt" and a[1] == b:
+            return a
+    return None
+
+
+def wrap_opt(text, have, want):
+    if have == want:
+        return text
+    if have == "none":
+        return "none"
+    return f"some {atom(text)}"
 
 
 def is_static(t):
@@ -179,7 +259,7 @@ def ident(name):
 
 def atom(s):
     """parenthesise unless syntactically atomic"""
-    if re.fullmatch(r"[A-Za-z_][A-Za-z0-9_.']*|[0-9]+|0x[0-9A-Fa-f]+", s):
+    if re.fullmatch(r"[A-Za-z_][A-Za-z0-9_.']*|[0-9]+|0x[0-9A-Fa-f]+|@@ELT:\w+@@", s):
         return s
     if s.startswith("(") and s.endswith(")"):
         depth = 0
@@ -334,8 +414,9 @@ def read_names(node_or_list):
 
 
 def _is_insert(call):
-    return (isinstance(call, ast.Call) and isinstance(call.func, ast.Attribute) and call.func.attr == "insert"
-            and isinstance(call.func.value, ast.Name))
+    """`x.insert(..)` / `x.append(..)` on a name: a statement that assigns `x`"""
+    return (isinstance(call, ast.Call) and isinstance(call.func, ast.Attribute)
+            and call.func.attr in ("insert", "append") and isinstance(call.func.value, ast.Name))
 
 
 def _is_msg_value(v):
@@ -410,6 +491,11 @@ class FnTranslator:
         self.defaults = defaults or {}
         self.doc = doc
         self.aux = []                          # auxiliary loop definitions (lists of lines)
+        self.elt_types = {}                    # list variable -> element type (fixed by its first `append`)
+        self.enums = (consts or {}).get("__enums__", {})
+        self.base_info = None                  # translated base class of a constructor: dict(lean=, params=, fields=)
+        self.base_done = False
+        self.super_any = False                 # drop `super().__init__(..)` whatever its arguments
         self.ret_type = None
         self.tmp = 0
         self.nloops = 0
@@ -440,6 +526,24 @@ class FnTranslator:
     def seg(self, node):
         return ast.get_source_segment(self.mod.src, node) or ""
 
+    def resolve(self, t):
+        """a type with the element types of the lists known so far filled in"""
+        if isinstance(t, tuple) and t[0] == "elt":
+            return self.elt_types.get(t[1], t)
+        if isinstance(t, tuple) and t[0] in ("list", "opt"):
+            return (t[0], self.resolve(t[1]))
+        return t
+
+    def _super_call(self, st):
+        """`super().__init__(args..)` as a statement: the call node, else None"""
+        c = st.value if isinstance(st, ast.Expr) else None
+        if (isinstance(c, ast.Call) and not c.keywords and isinstance(c.func, ast.Attribute)
+                and c.func.attr == "__init__" and isinstance(c.func.value, ast.Call)
+                and isinstance(c.func.value.func, ast.Name) and c.func.value.func.id == "super"
+                and not c.func.value.args and not c.func.value.keywords):
+            return c
+        return None
+
     # ---- expressions: returns (text, type); monadic sub-computations are appended to `pre`
     def expr(self, node, env, pre):
         if isinstance(node, ast.Constant):
@@ -464,6 +568,9 @@ class FnTranslator:
                 if t == "msg":
                     self.bad(f"message string `{node.id}` used as a value", node)
                 return ident(node.id), t
+            if node.id.startswith("__unassigned_attr_"):
+                self.bad(f"`self.{node.id[len('__unassigned_attr_'):]}` is read but assigned neither here nor by a "
+                         f"translated base constructor", node)
             if node.id in self.all_names:
                 self.bad(f"variable `{node.id}` may be unbound here (assigned only on some paths / inside a loop)",
                          node)
@@ -508,6 +615,22 @@ class FnTranslator:
             return self.call(node, env, pre)
         if isinstance(node, ast.Subscript):
             return self.subscript(node, env, pre)
+        if isinstance(node, ast.Attribute):
+            v = node.value
+            if isinstance(v, ast.Name) and v.id not in env and v.id not in self.all_names \
+                    and v.id in self.mod.const_names and v.id in self.enums:
+                if node.attr not in self.enums[v.id]:
+                    self.bad(f"`{node.attr}` is not a member of the enumeration `{v.id}` of constants.py", node)
+                return self.str_lit(self.enums[v.id][node.attr], node), "str"
+            a, t = self.expr(v, env, pre)
+            if isinstance(t, tuple) and t[0] == "record":
+                for fmod_cls, info in KNOWN_CLASSES.items():
+                    if info["record"] == t[1]:
+                        for n, ft in info["fields"]:
+                            if n == node.attr:
+                                return f"{atom(a)}.{ident(n)}", ft
+                self.bad(f"`{node.attr}` is not an attribute assigned by the constructor of `{t[1]}`", node)
+            self.bad(f"attribute `{node.attr}` of a value of type {t} is outside the subset", node)
         if isinstance(node, ast.JoinedStr):
             parts = []
             for v in node.values:
@@ -644,15 +767,28 @@ class FnTranslator:
                 tmp = self.fresh()
                 pre.append(f"let {tmp} ← pyUnhexlify {atom(a)}")
                 return tmp, "bytes"
+            if f.id == "__extern__":           # synthetic: the outcome of a call of the version interface (a parameter)
+                t = env.get(node.args[0].id)
+                if not (isinstance(t, tuple) and t[0] == "py"):
+                    self.bad("internal: external call without its parameter", node)
+                tmp = self.fresh()
+                pre.append(f"let {tmp} ← {ident(node.args[0].id)}")
+                return tmp, t[1]
             if f.id == "__record__":           # synthetic: the attributes of a constructor, in source order
                 fields = []
                 for a in node.args:
                     t = env.get(a.id)
                     if t is None:
                         self.bad(f"attribute `{a.id}` may be unassigned at the end of the constructor", node)
-                    if t not in ("int", "bytes", "bool"):
+                    t = self.resolve(t)
+                    ok = (t in RECORD_FIELD_TYPES or (isinstance(t, tuple) and (
+                        (t[0] == "opt" and t[1] in ("int", "bytes")) or t[0] == "record"
+                        or (t[0] == "list" and (t[1] == "int" or (isinstance(t[1], tuple) and t[1][0] == "record"))))))
+                    if not ok:
                         self.bad(f"attribute `{a.id}` ends with a value of type {t}", node)
                     fields.append((a.id, t))
+                if self.record_fields is not None and self.record_fields != fields:
+                    self.bad("an attribute has values of different types at two ends of the constructor", node)
                 self.record_fields = fields
                 return ("{ " + ", ".join(f"{ident(n)} := {ident(n)}" for n, _ in fields) + " }",
                         ("record", self.record_name))
@@ -676,6 +812,22 @@ class FnTranslator:
                 key = self.mod.imported[f.id]
             elif f.id in self.mod.module_defs:
                 key = (self.mod.relpath[:-3].replace("/", "."), f.id)
+            if key in KNOWN_CLASSES:
+                info = KNOWN_CLASSES[key]
+                if len(node.args) != len(info["params"]):
+                    self.bad(f"`{f.id}(..)` with {len(node.args)} arguments (all {len(info['params'])} must be given)",
+                             node)
+                args = []
+                for a_node, want in zip(node.args, info["params"]):
+                    a, t = self.expr(a_node, env, pre)
+                    if want == "buf" and t == "bytes":
+                        a, t = f"Buf.ofList {atom(a)}", "buf"     # a byte string handed on as the buffer it is
+                    if t != want:
+                        self.bad(f"argument of type {t} where `{f.id}` takes {want}", node)
+                    args.append(atom(a))
+                tmp = self.fresh()
+                pre.append(f"let {tmp} ← {info['lean']} " + " ".join(args))
+                return tmp, ("record", info["record"])
             if key in KNOWN_CALLS:
                 lean, ptys, rty = KNOWN_CALLS[key]
                 if len(node.args) != len(ptys):
@@ -724,6 +876,10 @@ class FnTranslator:
             if fmt == ">d":
                 pre.append(f"let {tmp} ← pyUnpackDouble {atom(a)}")
                 return tmp, "f64"
+            if fmt in UNPACK_FORMATS_LE:
+                signed, n = UNPACK_FORMATS_LE[fmt]
+                pre.append(f"let {tmp} ← pyUnpackLE {'true' if signed else 'false'} {n} {atom(a)}")
+                return tmp, "int"
             if fmt not in UNPACK_FORMATS:
                 self.bad(f"unpack format {fmt!r} is outside the subset", node)
             signed, n = UNPACK_FORMATS[fmt]
@@ -734,13 +890,24 @@ class FnTranslator:
         a, t = self.expr(node.value, env, pre)
         if t == "buf":
             s = node.slice
-            if isinstance(s, ast.Slice) and s.step is None and s.lower is not None and s.upper is not None:
-                lo, tl = self.expr(s.lower, env, pre)
-                hi, th = self.expr(s.upper, env, pre)
+            if isinstance(s, ast.Slice) and s.step is None and (s.lower is not None or s.upper is not None):
+                # an omitted lower bound is 0, an omitted upper bound is len(b)
+                lo, tl = self.expr(s.lower, env, pre) if s.lower is not None else ("0", "int")
+                hi, th = self.expr(s.upper, env, pre) if s.upper is not None else (f"pyLenBuf {atom(a)}", "int")
                 if tl != "int" or th != "int":
                     self.bad("slice bound that is not an integer", node)
                 return f"pySliceBuf {atom(a)} {atom(lo)} {atom(hi)}", "bytes"
-            self.bad("only two-bound slices `b[lo:hi]` of a byte buffer are inside the subset", node)
+            self.bad("only slices `b[lo:hi]`, `b[lo:]`, `b[:hi]` of a byte buffer are inside the subset", node)
+        if isinstance(t, tuple) and t[0] == "list":
+            k = self.int_literal(node.slice)
+            if k is None or k < 0:
+                self.bad("only a literal index >= 0 into a built list is inside the subset", node)
+            et = self.resolve(t[1])
+            if isinstance(et, tuple) and et[0] == "elt":
+                self.bad("index into a list nothing was appended to", node)
+            tmp = self.fresh()
+            pre.append(f"let {tmp} ← pyListGet {atom(a)} {k}")
+            return tmp, et
         if t != "bytes":
             self.bad(f"subscript of a value of type {t} outside ord(..) is outside the subset", node)
         s = node.slice
@@ -842,6 +1009,9 @@ class FnTranslator:
             if isinstance(c, ast.Call) and isinstance(c.func, ast.Name) and c.func.id == "warn" \
                     and self.mod.imported.get("warn") == ("warnings", "warn"):
                 return env                       # warnings.warn: no effect on the result (filters are not modelled)
+            if self.super_any and self._super_call(st) is not None:
+                return env                       # configured: the base constructor is not translated (its results
+                #                                  that are read here are parameters)
             if self.super_ok and isinstance(c, ast.Call) and not c.args and not c.keywords \
                     and isinstance(c.func, ast.Attribute) and c.func.attr == "__init__" \
                     and isinstance(c.func.value, ast.Call) and isinstance(c.func.value.func, ast.Name) \
@@ -881,6 +1051,10 @@ class FnTranslator:
             return st.target.id, v, None
         if isinstance(st, ast.Expr) and _is_insert(st.value):
             c = st.value
+            if c.func.attr == "append":
+                if len(c.args) != 1 or c.keywords:
+                    self.bad("`.append` takes one argument", st)
+                return c.func.value.id, c.args[0], "append"
             if len(c.args) != 2 or self.int_literal(c.args[0]) != 0 or c.keywords:
                 self.bad("only `.insert(0, value)` is inside the subset", st)
             return c.func.value.id, c.args[1], "insert0"
@@ -898,6 +1072,24 @@ class FnTranslator:
                 self.bad("insert of a non-integer", st)
             pre.append(f"let {ident(name)} ← pyInsert0 {ident(name)} {atom(a)}")
             return pre, env
+        if special == "append":
+            lt = env.get(name)
+            if not (isinstance(lt, tuple) and lt[0] == "list"):
+                self.bad(f"`.append` on `{name}` which is not a list built here", st)
+            a, t = self.expr(value, env, pre)
+            if t not in ("int",) and not (isinstance(t, tuple) and t[0] == "record"):
+                self.bad(f"append of a value of type {t}", st)
+            et = lt[1]
+            if isinstance(et, tuple) and et[0] == "elt":
+                if self.elt_types.setdefault(et[1], t) != t:
+                    self.bad(f"`{name}` gets elements of different types", st)
+            elif et != t:
+                self.bad(f"`{name}` gets elements of different types", st)
+            pre.append(f"let {ident(name)} : {lean_ty(lt)} := {ident(name)} ++ [{a}]")
+            return pre, env
+        if special is None and isinstance(value, ast.List) and not value.elts:
+            lt = ("list", ("elt", name))
+            return [f"let {ident(name)} : {lean_ty(lt)} := []"], {**env, name: lt}
         a, t = self.expr(value, env, pre)
         if special == "tuple":
             if not (isinstance(t, tuple) and t[0] == "tuple" and len(t[1]) == len(name)):
@@ -906,7 +1098,7 @@ class FnTranslator:
             return pre, {**env, **dict(zip(name, t[1]))}
         if is_static(t):
             return pre, {**env, name: t}
-        if isinstance(t, tuple):
+        if isinstance(t, tuple) and t[0] == "tuple":
             self.bad("assignment of a tuple is outside the subset", st)
         if t == "rat":
             self.bad("a float may only occur under int(..) or be returned", st)
@@ -959,24 +1151,25 @@ class FnTranslator:
             if n in vs:
                 continue
             if n in e1 and n in e2 and e1[n] != "msg" and e2[n] != "msg":
-                if e1[n] != e2[n]:
+                if unify_opt(e1[n], e2[n]) is None:
                     self.bad(f"`{n}` has different types after the two branches", st)
                 vs.append(n)
         env2 = dict(env)
         for n in changed:
             env2.pop(n, None)
         for n in vs:
-            env2[n] = e1[n]
+            env2[n] = unify_opt(e1[n], e2[n])
         if not vs:
             # a pure `if` that assigns nothing that survives it (only logging / warnings inside): no effect
             return "", env2
 
-        def branch(lets):
-            res = tuple_text([ident(v) for v in vs])
+        def branch(lets, e):
+            # a variable that is None at the end of one branch and a value at the end of the other is an Option
+            res = tuple_text([wrap_opt(ident(v), e[v], env2[v]) for v in vs])
             return res if not lets else "(" + "; ".join(lets + [res]) + ")"
 
-        ty = tuple_type([e1[v] for v in vs])
-        line = f"let {tuple_text([ident(v) for v in vs])} : {ty} := if {c} then {branch(l1)} else {branch(l2)}"
+        ty = tuple_type([env2[v] for v in vs])
+        line = f"let {tuple_text([ident(v) for v in vs])} : {ty} := if {c} then {branch(l1, e1)} else {branch(l2, e2)}"
         return line, env2
 
     def block(self, stmts, env, k):
@@ -992,6 +1185,33 @@ class FnTranslator:
         if isinstance(st, (ast.Assign, ast.AugAssign)) or (isinstance(st, ast.Expr) and _is_insert(st.value)):
             lines, env2 = self.assign_lines(st, env)
             return lines + k(env2)
+        if self.base_info is not None and self._super_call(st) is not None:
+            # the constructor of a base class translated earlier: every attribute it assigns becomes a variable
+            c = self._super_call(st)
+            if self.loops or self.base_done:
+                self.bad("`super().__init__(..)` inside a loop / more than once", st)
+            info = self.base_info
+            if len(c.args) != len(info["params"]):
+                self.bad(f"`super().__init__(..)` with {len(c.args)} arguments (all {len(info['params'])} must be given)",
+                         st)
+            pre, args = [], []
+            for a_node, want in zip(c.args, info["params"]):
+                a, t = self.expr(a_node, env, pre)
+                if want == "buf" and t == "bytes":
+                    a, t = f"Buf.ofList {atom(a)}", "buf"
+                if t != want:
+                    self.bad(f"argument of type {t} where the base constructor takes {want}", st)
+                args.append(atom(a))
+            tmp = self.fresh()
+            pre.append(f"let {tmp} ← {info['lean']} " + " ".join(args))
+            env2 = dict(env)
+            for n, t in info["fields"]:
+                pre.append(f"let {ident(n)} : {lean_ty(t)} := {tmp}.{ident(n)}")
+                env2[n] = t
+            self.base_done = True
+            out = pre + k(env2)
+            self.base_done = False
+            return out
         if isinstance(st, ast.Try):
             # try: BODY except X: <logging> raise   — the handlers change nothing
             if st.orelse or st.finalbody or not st.handlers:
@@ -1280,6 +1500,17 @@ class FnTranslator:
         for d in self.aux:
             out += d + [""]
         out += [f"/-- {self.doc} -/", f"def {self.name}{sig} : Py {atom(lean_ty(self.ret_type))} := do"] + indent(body)
+
+        def fill(m):
+            t = self.resolve(("elt", m.group(1)))
+            if isinstance(t, tuple) and t[0] == "elt":
+                raise Unsupported(f"nothing is ever appended to the list `{m.group(1)}`: its element type is unknown",
+                                  self.body[0], self.mod.src)
+            return lean_ty(t)
+
+        out = [re.sub(r"@@ELT:([A-Za-z_0-9]+)@@", fill, ln) for ln in out]
+        if self.record_fields is not None:
+            self.record_fields = [(n, self.resolve(t)) for n, t in self.record_fields]
         return out
 
 
@@ -1348,20 +1579,70 @@ def _super_assigns_only_none(mod, cls_node, repo):
     return attrs
 
 
-def translate_class(spec, repo, consts):
+def _translated_base(mod, cls_node):
+    """the entry of KNOWN_CLASSES for the base class when it is a class of the same module translated earlier"""
+    if len(cls_node.bases) == 1 and isinstance(cls_node.bases[0], ast.Name):
+        key = (mod.relpath[:-3].replace("/", "."), cls_node.bases[0].id)
+        if cls_node.bases[0].id in mod.module_defs and key in KNOWN_CLASSES:
+            return KNOWN_CLASSES[key]
+    return None
+
+
+def translate_class(spec, repo, consts, register=False):
     import copy
     mod = Module(spec["file"], repo)
     cs = [n for n in mod.tree.body if isinstance(n, ast.ClassDef) and n.name == spec["cls"]]
     if len(cs) != 1:
         raise Unsupported(f"expected exactly one class `{spec['cls']}`, found {len(cs)}")
     init = mod.method(spec["cls"], "__init__")
+    want = spec["params"] if "params" in spec else [(spec["param"], "buf")]
     a = init.args
-    if a.vararg or a.kwarg or a.kwonlyargs or a.posonlyargs or a.defaults or len(a.args) != 2 \
+    if a.vararg or a.kwarg or a.kwonlyargs or a.posonlyargs or a.defaults or len(a.args) != 1 + len(want) \
             or a.args[0].arg != "self":
         raise Unsupported(f"parameters of `{spec['cls']}.__init__` are {[x.arg for x in a.args]}, the translator is "
-                          f"configured for ['self', '{spec['param']}']", init, mod.src)
-    param = a.args[1].arg            # the configured name only documents the position
-    base_attrs = _super_assigns_only_none(mod, cs[0], repo)
+                          f"configured for {['self'] + [w for w, _ in want]}", init, mod.src)
+    params = [(x.arg, t) for x, (_w, t) in zip(a.args[1:], want)]   # the configured names only document the positions
+    opaque = {p_ for p_, t in params if t is None}       # may only be handed to the dropped `super().__init__(..)`
+    params = [(p_, t) for p_, t in params if t is not None]
+    drop_super = bool(spec.get("drop_super"))
+    inputs = list(spec.get("inputs", []))                # attributes the dropped base constructor leaves behind
+    init = copy.deepcopy(init)
+    if drop_super:
+        for x in ast.walk(init):
+            if isinstance(x, ast.Name) and x.id in opaque and isinstance(x.ctx, ast.Load):
+                par = [y for y in ast.walk(init) if isinstance(y, ast.Call) and x in y.args
+                       and isinstance(y.func, ast.Attribute) and y.func.attr == "__init__"]
+                if not par:
+                    raise Unsupported(f"the parameter `{x.id}` is used other than as an argument of "
+                                      f"`super().__init__(..)`", x, mod.src)
+    elif opaque or inputs or spec.get("externals"):
+        raise Unsupported("internal: opaque parameters / inputs / externals need drop_super")
+    for text, pname, pty in spec.get("externals", []):
+        wanted = _dump(ast.parse(text, mode="eval").body)
+        hits = [x for x in ast.walk(init) if isinstance(x, ast.Call) and _dump(x) == wanted]
+        if len(hits) != 1:
+            raise Unsupported(f"expected exactly one call `{text}`, found {len(hits)}", init, mod.src)
+        h = hits[0]
+        h.func = ast.copy_location(ast.Name(id="__extern__", ctx=ast.Load()), h)
+        h.args = [ast.copy_location(ast.Name(id=pname, ctx=ast.Load()), h)]
+        h.keywords = []
+        params.append((pname, pty))
+    base = None if drop_super else _translated_base(mod, cs[0])
+    if not drop_super and base is None and len(cs[0].bases) == 1 and isinstance(cs[0].bases[0], ast.Name) \
+            and cs[0].bases[0].id in mod.module_defs and cs[0].bases[0].id != "object":
+        raise Unsupported(f"the constructor of the base class `{cs[0].bases[0].id}` (same module) could not be "
+                          f"translated, so this one cannot be either", cs[0], mod.src)
+    base_attrs = _super_assigns_only_none(mod, cs[0], repo) if base is None and not drop_super else []
+    if base is not None:
+        n_super = 0
+        for x in ast.walk(init):
+            if isinstance(x, ast.Call) and isinstance(x.func, ast.Attribute) and x.func.attr == "__init__":
+                n_super += 1
+        if n_super != 1 or not any(isinstance(st, ast.Expr) and isinstance(st.value, ast.Call)
+                                   and isinstance(st.value.func, ast.Attribute) and st.value.func.attr == "__init__"
+                                   for st in init.body):
+            raise Unsupported(f"`{spec['cls']}.__init__` must call `super().__init__(..)` exactly once, as a statement "
+                              f"of its own at the top level", init, mod.src)
     # every use of `self` must be `self.<attr>`
     attr_nodes = {id(x.value) for x in ast.walk(init) if _self_attr(x) is not None}
     for x in ast.walk(init):
@@ -1375,28 +1656,53 @@ def translate_class(spec, repo, consts):
                     at = _self_attr(y)
                     if at is not None:
                         stores.append((y.lineno, y.col_offset, at))
-    attrs = []
+    attrs = [n for n, _t in base["fields"]] if base is not None else []
     for _l, _c, at in sorted(stores):
         if at not in attrs:
             attrs.append(at)
     if not attrs:
         raise Unsupported(f"`{spec['cls']}.__init__` assigns no attribute", init, mod.src)
-    local_names = set(assigned_names(init.body)) | {param}
-    clash = local_names & set(attrs)
-    if clash:
-        raise Unsupported(f"local variable(s) {sorted(clash)} have the names of attributes", init, mod.src)
+    for n, _t in inputs:
+        if n in attrs:
+            raise Unsupported(f"`self.{n}`, configured as left behind by the base constructor, is assigned here", init,
+                              mod.src)
+    # a parameter / local with the name of an attribute (`self.index = index`) gets a name of its own
+    local_names = set(assigned_names(init.body)) | {p for p, _ in params}
+    every = set(local_names) | set(attrs) | {x.id for x in ast.walk(init) if isinstance(x, ast.Name)}
+    every |= {n for n, _t in inputs}
+    rename = {}
+    for n in sorted(local_names & (set(attrs) | {n for n, _t in inputs})):
+        new = n + "_arg" if n in {p for p, _ in params} else n + "_local"
+        while new in every:
+            new += "_"
+        every.add(new)
+        rename[n] = new
+    params = [(rename.get(p_, p_), t) for p_, t in params] + inputs
+    known_attrs = set(attrs) | {n for n, _t in inputs}
     missing = [b for b in base_attrs if b not in attrs]
     if missing:
         raise Unsupported(f"attribute(s) {missing} are left at None by `{spec['cls']}.__init__`", init, mod.src)
 
+    class RnLocal(ast.NodeTransformer):
+        def visit_Name(self, node):
+            if node.id in rename:
+                return ast.copy_location(ast.Name(id=rename[node.id], ctx=node.ctx), node)
+            return node
+
     class Rn(ast.NodeTransformer):
         def visit_Attribute(self, node):
             at = _self_attr(node)
-            if at is not None:
+            if at is not None and at in known_attrs:
                 return ast.copy_location(ast.Name(id=at, ctx=node.ctx), node)
+            if at in ("_logger", "logger"):
+                return node                      # receiver of a logging call (dropped with the call)
+            if at is not None:
+                # an attribute no path assigns: an AttributeError, or left behind by an untranslated base constructor;
+                # an error as soon as it is evaluated (it may occur in dropped log messages)
+                return ast.copy_location(ast.Name(id="__unassigned_attr_" + at, ctx=node.ctx), node)
             return self.generic_visit(node)
 
-    body = [Rn().visit(copy.deepcopy(st)) for st in init.body]
+    body = [Rn().visit(RnLocal().visit(copy.deepcopy(st))) for st in init.body]
     last = init.body[-1]
     ret = ast.Return(value=ast.Call(func=ast.Name(id="__record__", ctx=ast.Load()),
                                     args=[ast.Name(id=at, ctx=ast.Load()) for at in attrs], keywords=[]))
@@ -1404,16 +1710,26 @@ def translate_class(spec, repo, consts):
         ast.copy_location(n, last)
         n.lineno = n.end_lineno = (getattr(last, "end_lineno", None) or last.lineno) + 1
     body.append(ret)
-    tr = FnTranslator(mod, spec["cls"] + ".init", [(param, "buf")], body, consts,
-                      doc=f"`{spec['cls']}.__init__` of {spec['file']}: the attributes it assigns, or the exception "
-                          f"class it raises", super_ok=True)
+    doc = f"`{spec['cls']}.__init__` of {spec['file']}: the attributes it assigns, or the exception class it raises"
+    if drop_super:
+        doc += ("; `super().__init__(..)` is NOT translated: " + ", ".join(f"`self.{n}`" for n, _t in inputs)
+                + " (left behind by it) " + ("are parameters" if len(inputs) != 1 else "is a parameter")
+                + "".join(f", `{text}` is the parameter `{pname}` (its result or the exception it raises)"
+                          for text, pname, _t in spec.get("externals", [])))
+    tr = FnTranslator(mod, spec["cls"] + ".init", params, body, consts, doc=doc, super_ok=base is None)
     tr.record_name = spec["cls"]
+    tr.base_info = base
+    tr.super_any = drop_super
     lines = tr.translate()
     fields = tr.record_fields
-    struct = [f"/-- the attributes of a `{spec['cls']}` ({spec['file']}) in the order of their first assignment -/",
+    struct = [f"/-- the attributes of a `{spec['cls']}` ({spec['file']}) in the order of their first assignment"
+              + (" (those of the base class first)" if base is not None else "") + " -/",
               f"structure {spec['cls']} where"]
     struct += [f"  {ident(n)} : {lean_ty(t)}" for n, t in fields]
     struct += ["  deriving Repr, DecidableEq", ""]
+    if register:
+        KNOWN_CLASSES[(mod.relpath[:-3].replace("/", "."), spec["cls"])] = dict(
+            lean=spec["cls"] + ".init", record=spec["cls"], params=[t for _p, t in params], fields=fields)
     return struct + lines
 
 
@@ -1656,16 +1972,73 @@ def render(repo=None):
     _each(CLASSES, lambda sp: sp["cls"], lambda sp: sp["file"], lambda sp: translate_class(sp, repo, consts),
           failures, hlines)
     hlines += ["end SqliteDissect.Generated.PyHeader", ""]
-    return {OUT: "\n".join(lines), OUT_HEADER: "\n".join(hlines)}, failures
+    plines = header("PyPage", "sqlite_dissect/file/database/header.py (b-tree page headers)\n"
+                              "   and sqlite_dissect/file/wal_index/header.py")
+    KNOWN_CLASSES.clear()
+    _each(PAGE_CLASSES, lambda sp: sp["cls"], lambda sp: sp["file"],
+          lambda sp: translate_class(sp, repo, consts, register=True), failures, plines)
+    KNOWN_CLASSES.clear()
+    plines += ["end SqliteDissect.Generated.PyPage", ""]
+    return {OUT: "\n".join(lines), OUT_HEADER: "\n".join(hlines), OUT_PAGE: "\n".join(plines)}, failures
+
+
+ENUM_GETATTR = "Return(value=Subscript(value=Attribute(value=Name(id='self'), attr='_store'), slice=Name(id='key')))"
+ENUM_LIST_INIT = ("Assign(targets=[Attribute(value=Name(id='self'), attr='_store')], value=DictComp(key=Name(id='value'), "
+                  "value=Name(id='value'), generators=[comprehension(target=Name(id='value'), iter=Name(id='data'), "
+                  "is_async=0)]))")
+
+
+def _dump(node):
+    return re.sub(r", \w+=\[\]", "", re.sub(r", ctx=(Load|Store)\(\)", "", ast.dump(node)))
+
+
+def _enums(repo):
+    """`X = Enum(["A", "B"])` tables of constants.py: {X: {member: the string `X.member` evaluates to}}.  Only when the
+    `Enum` class of that file still answers `X.A` with `self._store["A"]` and builds `_store` from a list as
+    `{value: value}` (the reading of the class that is trusted here); otherwise no enumeration is known and every use
+    is outside the subset."""
+    src = open(os.path.join(repo, "sqlite_dissect", "constants.py"), encoding="utf-8").read()
+    tree = ast.parse(src)
+    cls = [n for n in tree.body if isinstance(n, ast.ClassDef) and n.name == "Enum"]
+    if len(cls) != 1:
+        return {}
+    meth = {n.name: n for n in cls[0].body if isinstance(n, ast.FunctionDef)}
+    ga, init = meth.get("__getattr__"), meth.get("__init__")
+    if ga is None or init is None or len(ga.body) != 1 or _dump(ga.body[0]) != ENUM_GETATTR:
+        return {}
+    first = init.body[0] if init.body else None
+    if not (isinstance(first, ast.If) and _dump(first.test) == "Call(func=Name(id='isinstance'), args=[Name(id='data'), "
+            "Name(id='list')])" and len(first.body) == 1 and _dump(first.body[0]) == ENUM_LIST_INIT):
+        return {}
+    if any(n in meth for n in ("__getattribute__", "__new__")):
+        return {}
+    out = {}
+    assigned = {}
+    for st in tree.body:
+        if isinstance(st, ast.Assign):
+            for t in st.targets:
+                for x in ast.walk(t):
+                    if isinstance(x, ast.Name):
+                        assigned[x.id] = assigned.get(x.id, 0) + 1
+    for st in tree.body:
+        if (isinstance(st, ast.Assign) and len(st.targets) == 1 and isinstance(st.targets[0], ast.Name)
+                and isinstance(st.value, ast.Call) and isinstance(st.value.func, ast.Name)
+                and st.value.func.id == "Enum" and len(st.value.args) == 1 and not st.value.keywords
+                and isinstance(st.value.args[0], ast.List) and assigned.get(st.targets[0].id) == 1
+                and all(isinstance(e, ast.Constant) and isinstance(e.value, str) for e in st.value.args[0].elts)):
+            out[st.targets[0].id] = {e.value: e.value for e in st.value.args[0].elts}
+    return out
 
 
 def _consts(repo):
     old = tr_constants.REPO
     tr_constants.REPO = repo
     try:
-        return tr_constants.extract()
+        env = tr_constants.extract()
     finally:
         tr_constants.REPO = old
+    env["__enums__"] = _enums(repo)
+    return env
 
 
 def regenerate():
@@ -1933,6 +2306,115 @@ def selftest(seed=0, verbose=True):
     jhs += [bytes(rng.randrange(256) for _ in range(28)) for _ in range(5)]
     for d_ in jhs:
         run_cls("RollbackJournalHeader", JH.RollbackJournalHeader, d_)
+    # --- prelude: little-endian unpack, list index
+    for data in [b"", b"\x01", b"\x01\x02", b"\xff\x7f", b"\x00\x80", b"\x01\x02\x03", b"\x01\x02\x03\x04",
+                 b"\xff\xff\xff\x7f", b"\x00\x00\x00\x80", b"\x98\xe2\x2d\x00", b"\x01\x02\x03\x04\x05"]:
+        for fmt, (sg, n) in sorted(UNPACK_FORMATS_LE.items()):
+            if n <= 4:
+                add(f"sP sI (pyUnpackLE {'true' if sg else 'false'} {n} {L(data)})",
+                    E(lambda: str(struct.unpack(fmt, data)[0])))
+    for l_ in ([], [5], [5, 6]):
+        for k_ in (0, 1, 2):
+            add(f"sP sI (pyListGet ({L(l_)} : List Int) {k_})", E(lambda: str(l_[k_])))
+    # --- b-tree page header and WAL-index header constructors (Generated/PyPage.lean); md5 is the identity on both
+    #     sides here, so that what is hashed is compared too
+    WIH = importlib.import_module("sqlite_dissect.file.wal_index.header")
+    page_structs = {}
+    for m in re.finditer(r"structure (\w+) where\n((?:  \S+ : .*\n)+)", texts[OUT_PAGE]):
+        page_structs[m.group(1)] = [(ln.split(" : ")[0].strip(), ln.split(" : ")[1].strip())
+                                    for ln in m.group(2).strip().split("\n")]
+
+    def py_show(v):
+        if v is None:
+            return "None"
+        if isinstance(v, bool):
+            return "True" if v else "False"
+        if isinstance(v, (bytes, bytearray)):
+            return L(bytes(v))
+        if isinstance(v, (int, str)):
+            return str(v)
+        if isinstance(v, list) and all(isinstance(x, int) for x in v):
+            return L(v)
+        if isinstance(v, list):
+            return "[" + "; ".join(py_show(x) for x in v) + "]"
+        return "{" + " ".join(py_show(getattr(v, n)) for n, _t in page_structs[type(v).__name__]) + "}"
+
+    inst = []
+    for cls, flds in page_structs.items():
+        inst.append(f"instance : SF PyPage.{cls} := ⟨fun r => \"{{\" ++ " + " ++ \" \" ++ ".join(
+            f"sF r.{ident(n)}" for n, _t in flds) + " ++ \"}\"⟩")
+        inst.append(f"instance : SF (List PyPage.{cls}) := ⟨fun l => \"[\" ++ \"; \".intercalate (l.map sF) ++ \"]\"⟩")
+
+    def run_page(cls, pyc, lean_args, py_args):
+        add(f"sP sF (PyPage.{cls}.init {lean_args})", E(lambda: py_show(pyc(*py_args))))
+
+    def B(d):
+        return f"(Buf.ofList {L(d)})"
+
+    def S(x):
+        return "([" + ", ".join(f"'{c}'" for c in x) + "] : List Char)"
+
+    saved_md5 = (DH.get_md5_hash, WIH.get_md5_hash)
+    DH.get_md5_hash = WIH.get_md5_hash = lambda b: bytes(b)
+    try:
+        hdr8 = bytes([0x0D, 0, 0, 0, 3, 0x0F, 0xF0, 2])
+        pages = [b"", b"\x53", b"\x0d", b"\x05", hdr8[:7], hdr8, hdr8 + b"\x09", hdr8 + b"\0\0\1", hdr8 + b"\0\0\1\7",
+                 hdr8 + b"\0\0\1\7\xaa", bytes([0x0D, 0xFF, 0xFF, 0xFF, 0xFF, 0, 0, 0xFF]),
+                 bytes([0x05, 0, 0, 0, 1, 0, 0, 0, 0xFF, 0xFF, 0xFF, 0xFF]), b"\x53" * 3, b"\x53" + hdr8]
+        for tail in (b"", hdr8[:1], hdr8[:3], hdr8[:7], hdr8, hdr8 + b"\0\0\1", hdr8 + b"\0\0\1\7", hdr8 + b"\0\0\1\7\xbb",
+                     bytes([0x05, 0, 0, 0, 0, 0, 0, 0, 0x12, 0x34, 0x56, 0x78, 1, 2])):
+            pages.append(base + tail)
+            pages.append(base[:99] + tail)
+        pages += [bytes(rng.choice([0x53, 0x0D, 0x05, rng.randrange(256)]) for _ in range(n_))
+                  for n_ in (1, 2, 8, 12, 13, 101, 108, 112, 120) for _ in range(2)]
+        for pg in pages:
+            for hl in (8, 12, 0, -1, 104):
+                run_page("BTreePageHeader", DH.BTreePageHeader, f"{B(pg)} {I(hl)}", (pg, hl))
+            run_page("LeafPageHeader", DH.LeafPageHeader, B(pg), (pg,))
+            run_page("InteriorPageHeader", DH.InteriorPageHeader, B(pg), (pg,))
+        sub = struct.pack("<IIIBBHIIIIIIII", 3007000, 0, 7, 1, 0, 4096, 12, 5, 1, 2, 3, 4, 5, 6)
+        subs = [sub, b"", sub[:47], sub + b"\0", struct.pack(">I", 3007000) + sub[4:], b"\0" * 48, b"\xff" * 48,
+                struct.pack("<I", 3007001) + sub[4:]]
+        subs += [sub[:4] + bytes(rng.randrange(256) for _ in range(44)) for _ in range(4)]
+        for d_ in subs:
+            for ix in (0, 1, 2, 3, -1):
+                run_page("WriteAheadLogIndexSubHeader", WIH.WriteAheadLogIndexSubHeader, f"{I(ix)} {B(d_)}", (ix, d_))
+        ck = struct.pack("<6I", 9, 0, 0xFFFFFFFF, 3, 4, 0x80000000)
+        cks = [ck, b"", ck[:23], ck + b"\0", b"\xff" * 24] + [bytes(rng.randrange(256) for _ in range(24)) for _ in range(4)]
+        for d_ in cks:
+            for en in ("LITTLE_ENDIAN", "BIG_ENDIAN", ""):
+                run_page("WriteAheadLogIndexCheckpointInfo", WIH.WriteAheadLogIndexCheckpointInfo, f"{B(d_)} {S(en)}",
+                         (d_, en))
+        whole = sub + sub + ck + bytes(range(16))
+        sub_be = struct.pack(">I", 3007000) + sub[4:]
+        wholes = [whole, b"", whole[:135], whole + b"\0", sub_be + sub + ck + b"\0" * 16, sub + sub_be + ck + b"\0" * 16,
+                  b"\0" * 48 + whole[48:], sub + b"\0" * 48 + whole[96:], sub + sub[:4] + b"\x11" * 44 + ck + b"\x22" * 16]
+        wholes += [sub + sub[:4] + bytes(rng.randrange(256) for _ in range(132 - 48)) for _ in range(3)]
+        wholes += [bytes(rng.randrange(256) for _ in range(136))]
+        for d_ in wholes:
+            run_page("WriteAheadLogIndexHeader", WIH.WriteAheadLogIndexHeader, B(d_), (d_,))
+        # OverflowPage: the real constructor on a stub version interface; `self.size` and the outcome of
+        # `get_page_data` are the parameters of the generated function
+        PG = importlib.import_module("sqlite_dissect.file.database.page")
+        from ..impl.stubs import StubVersion
+        saved_pg_md5 = PG.get_md5_hash
+        PG.get_md5_hash = lambda b: bytes(b)
+        try:
+            for ps_, content in [(8, b"\0\0\0\0abcd"), (8, b"\0\0\0\7abcd"), (16, b"\0\0\1\0" + b"x" * 12), (8, b"\0\0\0"),
+                                 (8, b""), (8, None), (12, b"\xff\xff\xff\xff" + b"y" * 8)]:
+                for rem in (-1, 0, 1, ps_ - 5, ps_ - 4, ps_ - 3, ps_, 1000):
+                    stub = StubVersion(ps_, pages=({7: content} if content is not None else {}))
+                    data_arg = ("(.ok " + B(content) + ")") if content is not None else "(.error .valueError)"
+
+                    def mk(stub=stub, rem=rem):
+                        o = PG.OverflowPage(stub, 7, 3, 5, 2, rem)
+                        assert o.size == stub.page_size
+                        return o
+                    add(f"sP sF (PyPage.OverflowPage.init 3 5 2 {I(rem)} {data_arg} {I(ps_)})", E(lambda: py_show(mk())))
+        finally:
+            PG.get_md5_hash = saved_pg_md5
+    finally:
+        DH.get_md5_hash, WIH.get_md5_hash = saved_md5
     consts = _consts(repo)
     for spec in CELLS:
         f = _py_sliced_function(spec, repo, consts)
@@ -1946,6 +2428,7 @@ def selftest(seed=0, verbose=True):
     src = "\n".join([
         "import SqliteDissect.Generated.PyFun",
         "import SqliteDissect.Generated.PyHeader",
+        "import SqliteDissect.Generated.PyPage",
         "open SqliteDissect SqliteDissect.Generated SqliteDissect.Generated.PyFun",
         "def sI (i : Int) : String := toString i",
         "def sL (l : List Nat) : String := \"[\" ++ \", \".intercalate (l.map toString) ++ \"]\"",
@@ -1957,7 +2440,12 @@ def selftest(seed=0, verbose=True):
         "class SF (α : Type) where sF : α → String",
         "instance : SF Int := ⟨sI⟩",
         "instance : SF (List Nat) := ⟨sL⟩",
+        "instance : SF Bool := ⟨fun b => if b then \"True\" else \"False\"⟩",
+        "instance : SF (List Char) := ⟨String.ofList⟩",
+        "instance : SF (List Int) := ⟨fun l => \"[\" ++ \", \".intercalate (l.map toString) ++ \"]\"⟩",
+        "instance : SF (Option (List Nat)) := ⟨fun o => match o with | none => \"None\" | some l => sL l⟩",
         "def sF {α : Type} [SF α] (a : α) : String := SF.sF a",
+    ] + inst + [
         "def sP {α : Type} (f : α → String) : Py α → String",
         "  | .ok a => \"ok \" ++ f a",
         "  | .error e => \"err \" ++ e.name",
@@ -1968,7 +2456,8 @@ def selftest(seed=0, verbose=True):
     with open(tmp, "w", encoding="utf-8") as fh:
         fh.write(src)
     try:
-        subprocess.run(["lake", "build", "SqliteDissect.Generated.PyFun", "SqliteDissect.Generated.PyHeader"], cwd=LEAN,
+        subprocess.run(["lake", "build", "SqliteDissect.Generated.PyFun", "SqliteDissect.Generated.PyHeader",
+                        "SqliteDissect.Generated.PyPage"], cwd=LEAN,
                        check=True,
                        stdout=subprocess.PIPE, stderr=subprocess.STDOUT)
         p = subprocess.run(["lake", "env", "lean", "--run", tmp], cwd=LEAN, stdout=subprocess.PIPE,
